@@ -90,7 +90,7 @@ def build_cases(tier, sigs):
     xs = ['0.0', '1.0', xfloat(-1e300), xfloat(1e300), xfloat(5e-324)]
     for x in xs:
         methods += ['%%s.pdf(%s)' % x, '%%s.cdf(%s)' % x, '%%s.z_score(%s)' % x]
-    for p in ('0.0', '1.0', '0.5', xfloat(1e-300), '0.9999999999999999'):
+    for p in ('0.0', '1.0', '0.5', xfloat(1e-300), '0.9999999999999999', '1.0000000000000002', xfloat(-5e-324), xfloat(-2.220446049250313e-16), '1.5', '-0.5'):
         methods.append('%%s.quantile(%s)' % p)
     for sig in sigs:
         if sig['kind'] != 'static' or sig['ret'] not in ('ContinuousDistribution<>',):
@@ -105,7 +105,8 @@ def build_cases(tier, sigs):
                     for m in methods:
                         extra.append(('dist-' + sig['name'], m % d))
     dmethods = ['%s.sample(40)', '%s.random()', '%s.mean()', '%s.variance()', '%s.std_dev()', '%s.skewness()', '%s.pmf(0)', '%s.pmf(1)',
-                '%s.cdf(0)', '%s.cdf(%s)' % ('%s', xint(1 << 62)), '%s.quantile(0.0)', '%s.quantile(1.0)', '%s.quantile(0.5)', '%s.z_score(1.0)']
+                '%s.cdf(0)', '%s.cdf(%s)' % ('%s', xint(1 << 62)), '%s.quantile(0.0)', '%s.quantile(1.0)', '%s.quantile(0.5)', '%s.z_score(1.0)',
+                '%s.quantile(1.0000000000000002)', '%s.quantile(' + xfloat(-5e-324) + ')', '%s.quantile(1.5)']
     for sig in sigs:
         if sig['kind'] != 'static' or sig['ret'] not in ('DiscreteDistribution<>',):
             continue
